@@ -877,3 +877,21 @@ Proof.
   - unfold effective, step in *. destruct (s_handles s); try discriminate.
     destruct (all_dropped s); try discriminate. destruct (s_resolved s); try discriminate. simpl. lia.
 Qed.
+
+(* ------------------------------------------------------------------ the property-text form of "started calls are answered" *)
+
+Lemma starts_app : forall t1 t2 s c k, starts s (t1 ++ t2) c k = starts s t1 c k + starts (run s t1) t2 c k.
+Proof. induction t1; simpl; intros; auto. rewrite IHt1. lia. Qed.
+
+Lemma started_before_stop_answered : forall pre post c k x,
+  sig (run init pre) = false ->
+  effective (run init pre) (Conn c (CStart k)) = true ->
+  let tr := pre ++ Conn c (CStart k) :: post in
+  s_resolved (run init tr) = true -> nth_error (s_conns (run init tr)) c = Some x -> c_closed x = false ->
+  In k (c_wire x).
+Proof.
+  intros pre post c k x _ E tr R H C.
+  apply (count_occ_In N.eq_dec).
+  rewrite (started_calls_answered tr c k x R H C).
+  unfold tr. rewrite starts_app. simpl. rewrite Nat.eqb_refl, N.eqb_refl, E. simpl. lia.
+Qed.
